@@ -26,6 +26,7 @@ structure TfProg where
   kill : Fn
   insertLoop : Fn
   count : Fn
+  draw : Fn
 
 abbrev tfKeys : List String := ["tf.Value", "tf.cursor", "tf.n"]
 
@@ -45,13 +46,13 @@ def callMethod (cx : Ctx A) (keys : List String) (f : Fn) (args : List (V A)) (e
   | some (env', r) => some (copyBack keys env' env, r)
   | none => none
 
-def cxBase (cl : List A → List (List A)) : Ctx A := ⟨cl, fun _ => false, fun _ _ _ => none⟩
+def cxBase (cl : List A → List (List A)) : Ctx A := { cl := cl, isAlnum := fun _ => false, call := fun _ _ _ => none }
 
 /-- layer 0: `graphemeCountInString` -/
 def tfCall0 (P : TfProg) (cl : List A → List (List A)) (f : String) (args : List (V A)) (env : Env A) : Option (Env A × V A) :=
   if f = "graphemeCountInString" then callMethod (cxBase cl) [] P.count args env else none
 
-def tfCx1 (P : TfProg) (cl : List A → List (List A)) : Ctx A := ⟨cl, fun _ => false, tfCall0 P cl⟩
+def tfCx1 (P : TfProg) (cl : List A → List (List A)) : Ctx A := { cl := cl, isAlnum := fun _ => false, call := tfCall0 P cl }
 
 /-- layer 1: the functions that call nothing but `graphemeCountInString` -/
 def tfCall1 (P : TfProg) (cl : List A → List (List A)) (f : String) (args : List (V A)) (env : Env A) : Option (Env A × V A) :=
@@ -63,7 +64,7 @@ def tfCall1 (P : TfProg) (cl : List A → List (List A)) (f : String) (args : Li
   else if f = "DeleteCursorToEndOfLine" then callMethod (tfCx1 P cl) tfKeys P.kill args env
   else tfCall0 P cl f args env
 
-def tfCx2 (P : TfProg) (cl : List A → List (List A)) : Ctx A := ⟨cl, fun _ => false, tfCall1 P cl⟩
+def tfCx2 (P : TfProg) (cl : List A → List (List A)) : Ctx A := { cl := cl, isAlnum := fun _ => false, call := tfCall1 P cl }
 
 /-- The callbacks installed by the application: they are logged (newest first) and return
     `(nil, nil)`. -/
@@ -79,7 +80,7 @@ def tfCall2 (P : TfProg) (cl : List A → List (List A)) (f : String) (args : Li
   else if f = "OnSubmit" then callback "submit" args env
   else tfCall1 P cl f args env
 
-def tfCx3 (P : TfProg) (cl : List A → List (List A)) : Ctx A := ⟨cl, fun _ => false, tfCall2 P cl⟩
+def tfCx3 (P : TfProg) (cl : List A → List (List A)) : Ctx A := { cl := cl, isAlnum := fun _ => false, call := tfCall2 P cl }
 
 abbrev tfKeysCb : List String := tfKeys ++ ["tf.OnChange", "tf.OnSubmit", "log"]
 
@@ -87,7 +88,7 @@ def tfCall3 (P : TfProg) (cl : List A → List (List A)) (f : String) (args : Li
   if f = "checkChanged" then callMethod (tfCx3 P cl) tfKeysCb P.checkChanged args env
   else tfCall2 P cl f args env
 
-def tfCx4 (P : TfProg) (cl : List A → List (List A)) : Ctx A := ⟨cl, fun _ => false, tfCall3 P cl⟩
+def tfCx4 (P : TfProg) (cl : List A → List (List A)) : Ctx A := { cl := cl, isAlnum := fun _ => false, call := tfCall3 P cl }
 
 open VaxisModel.Model.TextFieldCl (TF) in
 /-- An API call on a `TextField` through the translated bodies: the new state and the result. -/
@@ -120,6 +121,20 @@ def tfHandleKey (P : TfProg) (cl : List A → List (List A)) (tf : TF A) (ev : K
   | some (env', _) => (tfOfEnv env').map (·, logOf (getV env' "log"))
   | none => none
 
+open VaxisModel.Model.TextFieldCl (TF) in
+/-- `Draw` through the translated body, reduced to what is observed of it: `none` = the interpreter has no
+    meaning for a statement; `some none` = no cursor (a zero-sized surface); `some (some c)` = `s.Cursor.Col`
+    (as an integer: Go's `uint16` arithmetic is this value modulo 65536).  `drawW` = the widths of the characters
+    `ctx.Characters` draws a cluster as. -/
+def tfDrawCol (P : TfProg) (cl : List A → List (List A)) (drawW : List A → List Int) (tf : TF A) (w h : Int) : Option (Option Int) :=
+  let cx : Ctx A := { cl := cl, isAlnum := fun _ => false, call := fun _ _ _ => none, drawW := drawW }
+  match runFn cx P.draw (envOfTF tf ++ [("tf.Style", .opaque), ("p0.Max.Width", .num w), ("p0.Max.Height", .num h)]) [.opaque] with
+  | some (env, _) =>
+    some (match env.find? (fun p => p.1.endsWith ".Cursor.Col") with
+          | some (_, .num c) => some c
+          | _ => none)
+  | none => none
+
 /-! ### textinput.Model -/
 
 structure TiProg where
@@ -139,14 +154,14 @@ def tiOfEnv (env : Env A) : Option (TIC A) :=
   | .chars c, .num cur, .num off, .str p => some ⟨c, cur, off, p⟩
   | _, _, _, _ => none
 
-def tiCx0 (cl : List A → List (List A)) (isAlnum : List A → Bool) : Ctx A := ⟨cl, isAlnum, fun _ _ _ => none⟩
+def tiCx0 (cl : List A → List (List A)) (isAlnum : List A → Bool) : Ctx A := { cl := cl, isAlnum := isAlnum, call := fun _ _ _ => none }
 
 /-- layer 0: `resegment` -/
 def tiCall0 (P : TiProg) (cl : List A → List (List A)) (isAlnum : List A → Bool) (f : String) (args : List (V A)) (env : Env A) :
     Option (Env A × V A) :=
   if f = "resegment" then callMethod (tiCx0 cl isAlnum) tiKeys P.resegment args env else none
 
-def tiCx1 (P : TiProg) (cl : List A → List (List A)) (isAlnum : List A → Bool) : Ctx A := ⟨cl, isAlnum, tiCall0 P cl isAlnum⟩
+def tiCx1 (P : TiProg) (cl : List A → List (List A)) (isAlnum : List A → Bool) : Ctx A := { cl := cl, isAlnum := isAlnum, call := tiCall0 P cl isAlnum }
 
 open VaxisModel.Model.TextInputCl (Ev) in
 /-- The event as `Update` sees it: dynamic type, `EventType`, `Text`, `String()`, the modifier tests. -/
